@@ -119,7 +119,7 @@ def build_unit(name):
                 m2 = re.match(r'stmt\s+"(.*)"$', ln)
                 m3 = re.match(r'arg\s+(\w+)(?:#(\d+))?\s+(\d+)\s+"(.*)"$', ln)
                 m4 = re.match(r'tail\s+"(.*)"$', ln)
-                m5 = re.match(r'index\s+(\w+)(?:#(\d+))?\s+"(.*)"$', ln)
+                m5 = re.match(r'index\s+(\w+)(?:#(\d+))?(?:\s+then=(\w+))?\s+"(.*)"$', ln)
                 if m4:
                     # trailing expression of the body (after the last `;` / `}` at nesting depth 1; the whole body if there is none)
                     from rx import lex as _lexT
@@ -147,10 +147,16 @@ def build_unit(name):
                         if t.kind == 'id' and t.text == m5.group(1):
                             o = _ncI(toksI, k)
                             if o < len(toksI) and toksI[o].text == '[':
+                                c = _mcI(toksI, o)
+                                if m5.group(3):
+                                    # only the occurrence followed by `.<then>` (e.g. the slice handed to `.chunks_mut(..)`)
+                                    d1 = _ncI(toksI, c)
+                                    d2 = _ncI(toksI, d1) if d1 < len(toksI) else d1
+                                    if not (d2 < len(toksI) and toksI[d1].text == '.' and toksI[d2].text == m5.group(3)):
+                                        continue
                                 seen += 1
                                 if seen == want:
-                                    c = _mcI(toksI, o)
-                                    text = m5.group(3).replace('{}', body[toksI[o].end:toksI[c].start].strip())
+                                    text = m5.group(4).replace('{}', body[toksI[o].end:toksI[c].start].strip())
                                     break
                     if text is None:
                         raise ExtractError(f'lost anchor: index expression `{m5.group(1)}[..]` #{want} not found in {relpath}::{fname}')
